@@ -160,7 +160,7 @@ func vfC13Scenarios(thorough bool) []*vfGWScenario {
 			alphabet = append(alphabet, "bl:p", "pub:p:m2", "outclose:p", "leave:t", "adv:1100")
 		}
 		out = append(out, &vfGWScenario{Name: "life-" + proto, Cfg: vfGWCfg{Router: "gossip", Peers: peers, Topics: []string{"t"}, Params: "d2", Scoring: true, ScoreTopics: true,
-			Gater: true, TestExt: true, DecayMs: 1000, ScoreSeenS: 5, SeenTTL: 5, Prefix: prefix,
+			Gater: true, TestExt: true, DecayMs: 1030, ScoreSeenS: 5, SeenTTL: 5, Prefix: prefix,
 			Validators: []vfValCfg{{Name: "V", Topic: "t", Gated: true, GateOnly: []string{"m1"}}}},
 			Alphabet: alphabet, Msgs: msgs, Depth: d, Leaf: []string{"retire"}})
 	}
@@ -170,7 +170,7 @@ func vfC13Scenarios(thorough bool) []*vfGWScenario {
 	{
 		peers := []vfPeerCfg{{Name: "p", Proto: "v12", IP: "10.0.0.1"}, {Name: "q", Proto: "v12", IP: "10.0.0.2"}}
 		out = append(out, &vfGWScenario{Name: "respawn-budget", Cfg: vfGWCfg{Router: "gossip", Peers: peers, Topics: []string{"t"}, Params: "d2", Scoring: true, ScoreTopics: true,
-			Gater: true, TestExt: true, DecayMs: 1000, ScoreSeenS: 5, SeenTTL: 5,
+			Gater: true, TestExt: true, DecayMs: 1030, ScoreSeenS: 5, SeenTTL: 5,
 			Prefix:     []string{"conn:q", "sub:q:t", "join:t", "conn:p", "sub:p:t", "graft:p:t", "outreset:p", "adv:1100", "outreset:p", "adv:1100", "outreset:p", "adv:1100"},
 			Validators: []vfValCfg{{Name: "V", Topic: "t", Gated: true, GateOnly: []string{"m1"}}}},
 			Alphabet: []string{"outreset:p", "adv:1100", "graft:p:t", "prune:p:t", "inclose:p", "inopen:p", "sub:p:t", "disc:p", "conn:p", "hb"}, Msgs: msgs, Depth: d, Leaf: []string{"retire"}})
@@ -179,7 +179,7 @@ func vfC13Scenarios(thorough bool) []*vfGWScenario {
 	for _, proto := range []string{"v11"} {
 		peers := []vfPeerCfg{{Name: "p", Proto: proto, IP: "10.0.0.1"}, {Name: "q", Proto: "v12", IP: "10.0.0.1"}}
 		out = append(out, &vfGWScenario{Name: "shared-ip-" + proto, Cfg: vfGWCfg{Router: "gossip", Peers: peers, Topics: []string{"t"}, Params: "d2", Scoring: true, ScoreTopics: true,
-			Gater: true, TestExt: true, DecayMs: 1000, ScoreSeenS: 5, SeenTTL: 5, Prefix: []string{"conn:q", "sub:q:t", "join:t", "pub:q:m3"},
+			Gater: true, TestExt: true, DecayMs: 1030, ScoreSeenS: 5, SeenTTL: 5, Prefix: []string{"conn:q", "sub:q:t", "join:t", "pub:q:m3"},
 			Validators: []vfValCfg{{Name: "V", Topic: "t", Gated: true, GateOnly: []string{"m1"}}}},
 			Alphabet: []string{"conn:p", "disc:p", "inclose:p", "inopen:p", "outreset:p", "sub:p:t", "graft:p:t", "pub:p:m1", "vrel:V:m1:A", "disc:q", "conn:q", "hb"}, Msgs: msgs, Depth: d, Leaf: []string{"retire"}})
 	}
